@@ -111,6 +111,7 @@ fn main() {
     let code = match args.first().map(|s| s.as_str()) {
         Some("rw") => cmd_rw(&args[1..]),
         Some("gen") => cmd_gen(&args[1..]),
+        Some("oneshot") => props_more::oneshot_main(),
         Some("check") => {
             let id = args.get(1).cloned().unwrap_or_default();
             let tier = args.get(2).cloned().unwrap_or_else(|| "quick".into());
